@@ -146,6 +146,7 @@ def decide(prop: str, tier: str, seed: int, replay: str | None) -> int:
                 "detail": v.detail,
                 "how_to_rerun": f"./check {prop} --replay <this file>",
                 "other_violations_this_run": len(new_violations) - 1,
+                "violation_kinds_this_run": {k: sum(1 for v2, _ in new_violations if v2.kind == k) for k in sorted({v2.kind for v2, _ in new_violations})},
                 "broken_obligations": broken,
             },
         )
@@ -190,6 +191,8 @@ def decide(prop: str, tier: str, seed: int, replay: str | None) -> int:
             "evaluations": out.evaluations,
             "distinct_nontrivial": len(out.distinct),
             "rule": mod.RULE,
+            "level_text": getattr(mod, "LEVEL_TEXT", ""),
+            "technique": getattr(mod, "TECHNIQUE", "Lean 4 proof over a model + correspondence + property oracle"),
             "samples": out.samples or ["(no correspondence cases this run)"],
             "exhaustive": out.exhaustive,
             "distribution": out.distribution,
